@@ -74,6 +74,7 @@ def load(repo=None):
         # functions that did not exist on the tree the rules were confirmed on are analysed in place at their call sites
         kp = os.path.join(os.path.dirname(os.path.dirname(os.path.abspath(__file__))), "known_fns.txt")
         F.new_helpers = {"new": [], "inlined": [], "kept": []}
+        F.raw_fns = dict(F.fns)
         if os.path.exists(kp) and not os.environ.get("GPA_NO_INLINE_NEW"):
             with open(kp) as f:
                 known = {l.strip() for l in f if l.strip()}
@@ -81,6 +82,19 @@ def load(repo=None):
             F.new_helpers = inline.inline_new_helpers(F, known, set(build.CRATES))
         _cache[fdir] = F
     return _cache[fdir]
+
+
+def raw_view(F):
+    """the fact base without the in-place analysis of new helpers: for rule modules that recognise helpers by their own contracts
+    (body readers with loops, `&mut Request` helpers) and would lose them if the helper dissolved into its caller"""
+    if not getattr(F, "new_helpers", None) or not F.new_helpers.get("inlined"):
+        return F
+    import copy
+    G = copy.copy(F)
+    G.fns = dict(F.raw_fns)
+    G.__dict__.pop("_body_cache", None)
+    G.__dict__.pop("_cg", None)
+    return G
 
 
 # ----------------------------------------------------------------------------------------
